@@ -48,7 +48,9 @@ func (c *Client) Subscribe(ctx context.Context, params *SubscriptionParameters, 
 	stats.Subscription().Add("Count", 1)
 
 	// start the publish loop if it isn't already running
+	verifPoint("sub.resume.send", c, "from", "Subscribe")
 	c.resumech <- struct{}{}
+	verifPoint("sub.resume.sent", c, "from", "Subscribe")
 
 	sub := &Subscription{
 		SubscriptionID:            res.SubscriptionID,
@@ -248,7 +250,9 @@ func (c *Client) registerSubscription_NeedsSubMuxLock(sub *Subscription) error {
 }
 
 func (c *Client) ForgetSubscription(ctx context.Context, id uint32) {
+	verifPoint("forget.lock", c, "id", id)
 	c.subMux.Lock()
+	verifPoint("forget.locked", c, "id", id)
 	c.forgetSubscription_NeedsSubMuxLock(ctx, id)
 	c.subMux.Unlock()
 }
@@ -349,19 +353,23 @@ func (c *Client) notifySubscription(ctx context.Context, sub *Subscription, noti
 // pauseSubscriptions suspends the publish loop by signalling the pausech.
 // It has no effect if the publish loop is already paused.
 func (c *Client) pauseSubscriptions(ctx context.Context) {
+	verifPoint("sub.pause.send", c)
 	select {
 	case <-ctx.Done():
 	case c.pausech <- struct{}{}:
 	}
+	verifPoint("sub.pause.sent", c)
 }
 
 // resumeSubscriptions restarts the publish loop by signalling the resumech.
 // It has no effect if the publish loop is not paused.
 func (c *Client) resumeSubscriptions(ctx context.Context) {
+	verifPoint("sub.resume.send", c, "from", "resumeSubscriptions")
 	select {
 	case <-ctx.Done():
 	case c.resumech <- struct{}{}:
 	}
+	verifPoint("sub.resume.sent", c, "from", "resumeSubscriptions")
 }
 
 // monitorSubscriptions sends publish requests and handles publish responses
@@ -378,10 +386,12 @@ publish:
 			return
 
 		case <-c.resumech:
+			verifPoint("sub.loop", c, "arm", "resume")
 			dlog.Print("resume")
 			// ignore since not paused
 
 		case <-c.pausech:
+			verifPoint("sub.loop", c, "arm", "pause")
 			dlog.Print("pause")
 			for {
 				select {
@@ -390,10 +400,12 @@ publish:
 					return
 
 				case <-c.resumech:
+					verifPoint("sub.loop", c, "arm", "paused.resume")
 					dlog.Print("pause: resume")
 					continue publish
 
 				case <-c.pausech:
+					verifPoint("sub.loop", c, "arm", "paused.pause")
 					dlog.Print("pause: pause")
 					// ignore since already paused
 				}
@@ -404,7 +416,9 @@ publish:
 			//
 			// publish() blocks until a PublishResponse
 			// is received or the context is cancelled.
+			verifPoint("sub.loop", c, "arm", "publish")
 			if err := c.publish(ctx); err != nil {
+				verifPoint("sub.loop", c, "arm", "publish.err", "err", err)
 				dlog.Print("error: ", err.Error())
 				c.pauseSubscriptions(ctx)
 			}
@@ -482,7 +496,9 @@ func (c *Client) publish(ctx context.Context) error {
 		return err
 
 	default:
+		verifPoint("pub.lock", c, "sub", res.SubscriptionID)
 		c.subMux.Lock()
+		verifPoint("pub.locked", c, "sub", res.SubscriptionID, "seq", res.NotificationMessage.SequenceNumber, "ndata", len(res.NotificationMessage.NotificationData), "results", res.Results)
 		// handle pending acks for all subscriptions
 		c.handleAcks_NeedsSubMuxLock(res.Results)
 
@@ -573,6 +589,7 @@ func (c *Client) sendPublishRequest(ctx context.Context) (*ua.PublishResponse, e
 	c.subMux.RUnlock()
 
 	dlog.Printf("PublishRequest: %s", debug.ToJSON(req))
+	verifPoint("pub.send", c, "acks", req.SubscriptionAcknowledgements)
 	var res *ua.PublishResponse
 	err := c.sendWithTimeout(ctx, req, c.publishTimeout(), func(v ua.Response) error {
 		return safeAssign(v, &res)
